@@ -117,6 +117,12 @@ ROOT = {
                     f=lambda x, v, k: v[0] + v[1] * x, fx=lambda x, v, k: v[1], fd=lambda x, v, k: [1.0, x],
                     root=lambda v, k: -v[0] / v[1],
                     inv=lambda m, d, k: -d[0] / d[1]),
+    'lin4': dict(n=4, kind='real', dom=[[(-2.0, 2.0)], [(-3.0, 3.0)], [(-3.0, 3.0)], [(-3.0, 3.0)]],
+                 pe=lambda anp, x, D, k: x * (1.0 + D(0) ** 2) - (D(1) + 2.0 * D(2) - D(3)),
+                 f=lambda x, v, k: x * (1.0 + v[0] ** 2) - (v[1] + 2.0 * v[2] - v[3]), fx=lambda x, v, k: 1.0 + v[0] ** 2,
+                 fd=lambda x, v, k: [2.0 * v[0] * x, -1.0, -2.0, 1.0],
+                 root=lambda v, k: (v[1] + 2.0 * v[2] - v[3]) / (1.0 + v[0] ** 2),
+                 inv=lambda m, d, k: (d[1] + 2.0 * d[2] - d[3]) / (1.0 + d[0] ** 2)),
     'powscale': dict(n=2, kind='pos', dom=[[(0.3, 3.0)], [(0.2, 5.0)]], alias=[(0, 1)],
                      pe=lambda anp, x, D, k: D(0) * x ** k - D(1),
                      f=lambda x, v, k: v[0] * x ** k - v[1], fx=lambda x, v, k: v[0] * k * x ** (k - 1),
@@ -262,7 +268,7 @@ def ens_sets(specs):
 
 @st.composite
 def root_case(draw, tier):
-    name = draw(st.sampled_from(sorted(ROOT) + ['gcubic', 'linear2', 'powscale', 'expscale', 'tanh2']))
+    name = draw(st.sampled_from(sorted(ROOT) + ['gcubic', 'linear2', 'powscale', 'expscale', 'tanh2', 'lin4']))
     fam = ROOT[name]
     n = fam['n']
     k = draw(st.sampled_from(POW_K)) if 'pow' in name else None
@@ -281,7 +287,7 @@ def root_case(draw, tier):
     if n == 1:
         dform = draw(st.sampled_from(['scalar', 'scalar', 'list', 'array', 'tuple']))
     else:
-        dform = draw(st.sampled_from(['list', 'list', 'array', 'tuple']))
+        dform = draw(st.sampled_from(['list', 'list', 'array', 'tuple'] + (['array2d', 'array2d_F'] if n == 4 else [])))
     if fam['kind'] == 'pos':
         g = {'fac': draw(gen.fl(0.6, 1.7))}
     else:
@@ -345,7 +351,11 @@ def root_oracle(spec):
 
     scalar = spec['dform'] == 'scalar'
 
+    two_d = spec['dform'] in ('array2d', 'array2d_F')
+
     def func(x, d):
+        if two_d:      # d handed over as a 2 x 2 array (the reader flattens it row by row)
+            return fam['pe'](anp, x, lambda i: d[i // 2, i % 2], k)
         return fam['pe'](anp, x, (lambda i: d) if scalar else (lambda i: d[i]), k)
     if scalar:
         darg = ds[0]
@@ -353,6 +363,15 @@ def root_oracle(spec):
         darg = list(ds)
     elif spec['dform'] == 'tuple':
         darg = tuple(ds)
+    elif two_d:
+        darg = np.empty((2, 2), dtype=object)
+        for i in range(4):
+            darg[i // 2, i % 2] = ds[i]
+        if spec['dform'] == 'array2d_F':       # same logical matrix held in Fortran order (a transposed view)
+            tmp = np.empty((2, 2), dtype=object)
+            for i in range(4):
+                tmp[i % 2, i // 2] = ds[i]
+            darg = tmp.T
     else:
         darg = np.array(ds)
     if guess is None:
@@ -705,7 +724,7 @@ def quad_oracle(spec):
             si, _ = sq(squad, lambda x, i=i: abs(fam['df'](pv, x)[i]), min(a, b), max(a, b), {})
             ops.append(args[i])
             grad.append(float(Gb[i]) - float(Ga[i]))
-            err.append(10 * ei + 1e-11 * si + 1e-14 * (float(BGa[i]) + float(BGb[i])) + asked(grad[-1]) + 1e-290)
+            err.append(10 * ei + 1e-11 * si + 1e-14 * (float(BGa[i]) + float(BGb[i])) + asked(grad[-1]) + 1e-15 * max(1.0, abs(b - a) if math.isfinite(b - a) else 1.0))
     if isobs[n]:
         ops.append(args[n])
         grad.append(-float(fam['f'](pv, a)))
